@@ -22,7 +22,8 @@ package main
 //                exhausted fuel is the outcome `diverged`, which the refinement theorem excludes.
 //   expressions  identifiers, nil, integer and string literals, package constants of the two files (fields of the
 //                generated structure `Consts`, the Go values in `consts`), sql.HeadersTableName (read from database/sql),
-//                + and - on ints, == != < <= > >=, ! && || (right operand effect-free), x == nil / x != nil on errors
+//                + and - on ints, == != < <= > >=, ! && || (in the condition of an `if` an effectful right operand is
+//                rendered by nested ifs = Go's short-circuit evaluation; elsewhere it must be effect-free), x == nil / x != nil on errors
 //                and pointers, len, append(xs, x), make([]T, 0, n), xs[i], *p, &x, p.F, conversions int / int32 / int64 /
 //                uint32 / uint64 (identity, see ImportPrim.lean), composite literals of dto.DbBlockHeader and
 //                domains.BlockHeaderSource (all fields required) and chainhash.Hash{}, calls of translated functions
@@ -1224,27 +1225,71 @@ func (f *ifn) stmt(s ast.Stmt, sc *iscope, ind int, k icont) []string {
 			}
 			return append(out, k(sc, ind)...)
 		}
-		var pre []string
-		c := f.cond(x.Cond, inner, &pre)
-		out = append(out, impEmit(ind, pre)...)
-		out = append(out, impPad(ind)+"if "+c+" then")
-		out = append(out, f.stmts(x.Body.List, impScope(inner), ind+1, func(_ *iscope, i int) []string { return k(sc, i) })...)
-		out = append(out, impPad(ind)+"else")
-		switch e := x.Else.(type) {
-		case nil:
-			out = append(out, k(sc, ind+1)...)
-		case *ast.BlockStmt:
-			out = append(out, f.stmts(e.List, impScope(inner), ind+1, func(_ *iscope, i int) []string { return k(sc, i) })...)
-		case *ast.IfStmt:
-			out = append(out, f.stmt(e, inner, ind+1, func(_ *iscope, i int) []string { return k(sc, i) })...)
-		default:
-			t.fail(s, "else")
+		thenG := func(i int) []string {
+			return f.stmts(x.Body.List, impScope(inner), i, func(_ *iscope, j int) []string { return k(sc, j) })
 		}
-		return out
+		elseG := func(i int) []string {
+			switch e := x.Else.(type) {
+			case nil:
+				return k(sc, i)
+			case *ast.BlockStmt:
+				return f.stmts(e.List, impScope(inner), i, func(_ *iscope, j int) []string { return k(sc, j) })
+			case *ast.IfStmt:
+				return f.stmt(e, inner, i, func(_ *iscope, j int) []string { return k(sc, j) })
+			}
+			t.fail(s, "else")
+			return nil
+		}
+		return append(out, f.ifCond(x.Cond, inner, ind, thenG, elseG)...)
 	case *ast.ForStmt:
 		return f.forStmt(x, sc, ind, k)
 	}
 	return append(f.simple(s, sc, ind), k(sc, ind)...)
+}
+
+// is the condition free of effects (no temporaries needed)? decided by a trial translation
+func (f *ifn) pureCond(e ast.Expr, sc *iscope) (ok bool) {
+	save := f.tmpN
+	defer func() { f.tmpN = save }()
+	defer func() {
+		if r := recover(); r != nil {
+			if _, is := r.(impErr); !is {
+				panic(r)
+			}
+			ok = false
+		}
+	}()
+	var pre []string
+	f.cond(e, sc, &pre)
+	return len(pre) == 0
+}
+
+// `if c { A } else { B }`. When the right operand of && / || (or the operand of !) has an effect, Go's short-circuit
+// evaluation is rendered by nesting: a && b ↦ if a then (if b then A else B) else B; a || b ↦ if a then A else (if b then A
+// else B); !a ↦ branches swapped. Conditions without such effects are emitted as one decidable proposition.
+func (f *ifn) ifCond(e ast.Expr, sc *iscope, ind int, thenG, elseG func(int) []string) []string {
+	switch x := e.(type) {
+	case *ast.ParenExpr:
+		return f.ifCond(x.X, sc, ind, thenG, elseG)
+	case *ast.UnaryExpr:
+		if x.Op == token.NOT && !f.pureCond(x.X, sc) {
+			return f.ifCond(x.X, sc, ind, elseG, thenG)
+		}
+	case *ast.BinaryExpr:
+		if (x.Op == token.LAND || x.Op == token.LOR) && !f.pureCond(x.Y, sc) {
+			if x.Op == token.LAND {
+				return f.ifCond(x.X, sc, ind, func(i int) []string { return f.ifCond(x.Y, sc, i, thenG, elseG) }, elseG)
+			}
+			return f.ifCond(x.X, sc, ind, thenG, func(i int) []string { return f.ifCond(x.Y, sc, i, thenG, elseG) })
+		}
+	}
+	var pre []string
+	c := f.cond(e, sc, &pre)
+	out := impEmit(ind, pre)
+	out = append(out, impPad(ind)+"if "+c+" then")
+	out = append(out, thenG(ind+1)...)
+	out = append(out, impPad(ind)+"else")
+	return append(out, elseG(ind+1)...)
 }
 
 func impAssigned(nodes ...ast.Node) map[string]bool {
